@@ -57,6 +57,11 @@ def cexpr(draw, earlier, depth=0):
             # operands that are themselves lower-precedence binary expressions are parenthesised
             # by construction below, so the text means exactly the computed value
             sp = draw(st.sampled_from(["", " "]))
+            # a binary right (or left) operand in parentheses: a / (b * c), a - (b - c), (a + b) * c
+            if re.search(r"[-+*/]", rt[1:]) and not rt.startswith("(") and draw(st.booleans()):
+                rt = "(%s)" % rt
+            if re.search(r"[-+*/]", lt[1:]) and not lt.startswith("(") and draw(st.integers(0, 3)) == 0:
+                lt = "(%s)" % lt
             if rt[0] in "+-":
                 sp = " "      # 'a - -b' is legal C++, 'a--b' is not
             return "%s%s%s%s%s" % (lt, sp, op, sp, rt), v
@@ -116,6 +121,8 @@ def _value_of(text, env):
                 if rhs == 0:
                     raise ZeroDivisionError
                 lhs = cdiv(lhs, rhs)
+            if abs(lhs) >= (1 << 31) - 1:
+                raise ZeroDivisionError        # an intermediate result would overflow int: not a constant expression
         return lhs
     return expr_(0)
 
